@@ -70,6 +70,7 @@ type checkReport struct {
 	bySolver    map[string]int
 	solverS     float64
 	samples     []interface{}
+	slow        []interface{} // discharged obligations that took more than 3 s of solver time
 	functions   []map[string]interface{}
 	trusted     map[string]bool
 	assumptions map[string]bool
@@ -122,7 +123,7 @@ func cmdCheck(args []string) {
 	var unclaimed []unclaimedEntry
 	loadJSONL(filepath.Join(vdir, "unclaimed.jsonl"), func() interface{} { return &unclaimedEntry{} }, func(v interface{}) { unclaimed = append(unclaimed, *v.(*unclaimedEntry)) })
 
-	timeout := 10
+	timeout := 20 // quick tier: claimed obligations discharge in well under half of this on an idle machine (see slow_obligations_over_3s)
 	twoAgree := false
 	if *tier == "thorough" {
 		timeout = 60
@@ -245,6 +246,10 @@ func cmdCheck(args []string) {
 				nDis++
 				if len(rep.samples) < 6 && !o.canary {
 					rep.samples = append(rep.samples, map[string]interface{}{"obligation": o.name, "class": o.class, "at": o.pos, "what": o.desc, "solver": o.solver, "secs": round3(o.secs)})
+				}
+				// margin monitor: the slowest discharged obligations (those near the timeout are the unstable ones)
+				if o.secs > 3 {
+					rep.slow = append(rep.slow, map[string]interface{}{"obligation": o.name, "solver": o.solver, "secs": round3(o.secs)})
 				}
 				continue
 			}
@@ -433,6 +438,7 @@ func writeEvidence(vdir string, rep *checkReport) {
 		"checker_cmd":              fmt.Sprintf("/verif/bin/govc check %s --tier %s", rep.prop, rep.tier),
 		"trusted_base":             trusted,
 		"samples":                  rep.samples,
+		"slow_obligations_over_3s": rep.slow,
 		"functions_under_contract": rep.functions,
 		"by_solver":                rep.bySolver,
 		"solver_s":                 round3(rep.solverS),
